@@ -164,6 +164,7 @@ class Task:
         self.low = False
         self.timeout_at = None       # armed by gevent_shim.Timeout
         self.timeout_obj = None
+        self.throw = None            # an exception to raise in this task at its current / next blocking point (eventlet kill)
         self.greenlet = False
         self.sysexit = False
 
@@ -345,6 +346,10 @@ class Sim:
                     continue
                 if t.proc.stopped:
                     continue
+                if t.throw is not None:
+                    t.woke = "throw"
+                    out.append(t)
+                    continue
                 if t.is_main and t.proc.pending and self._wakes(t):
                     t.woke = "signal"
                     out.append(t)
@@ -471,6 +476,9 @@ class Sim:
             raise HarnessError("blocking call outside a simulated task")
         deadline = None if timeout is None else self.now + max(0.0, timeout)
         while True:
+            if t.throw is not None:
+                exc, t.throw = t.throw, None
+                raise exc                    # thrown into this (green) thread by another one (eventlet's kill)
             if pred():
                 return "ready"
             if t.timeout_at is not None and t.timeout_at <= self.now + 1e-12:
